@@ -32,6 +32,17 @@ def run(prop, tier, seed):
     out.assumptions += ["cryptographic primitives (ed25519, secp256k1) are trusted; they are observed on every generated negative case",
                         "messages are chosen so that their handlers fail: 'fee taken and nothing else changed' identifies a transaction the ante handler accepted",
                         "the tx index is the harness's fake Tendermint RPC (answers 'found' exactly for hashes registered as already committed)"]
+    slices = [(msgs, keys, muts)]
+    if tier != "thorough":
+        # every kind of message in every run, on the fee / balance / multiplier / replay / fee-shape dimensions
+        # (plain ed25519 keys, no mutation): prices are looked up per kind of message
+        slices.append((set(MSGS), {"ed"}, {"none"}))
+    for si, (msgs, keys, muts) in enumerate(slices):
+        run_slice(out, tier, seed, msgs, keys, muts, si)
+    return out
+
+
+def run_slice(out, tier, seed, msgs, keys, muts, si):
     consts = dict(Dev=set(), SigLimit=7, MsgSel=msgs, KeySel=keys, MutSel=muts)
     with common.Scratch() as d:
         files = tlagen.model("MCA", "AnteAuth", consts, invariants=["Inv_C03", "EmitCase"])
@@ -40,7 +51,7 @@ def run(prop, tier, seed):
         out.add_tlc(res, "decision table msgs=%s muts=%s" % (sorted(msgs), sorted(muts)))
         out.cov["exhaustive"] = tier == "thorough"
         # the deviation switches must make TLC refute the property (the specification is not vacuous)
-        for dev in ("NoSignerCheck", "MultisigFeeSkip"):
+        for dev in (("NoSignerCheck", "MultisigFeeSkip") if si == 0 else ()):
             f2 = tlagen.model("MCD", "AnteAuth", dict(consts, Dev={dev}, MsgSel={"send"}, MutSel={"none"}), invariants=["Inv_C03"])
             r2 = common.run_tlc("MCD", "MCD.cfg", d, timeout=600, files=f2, workers=4)
             if "Inv_C03" not in r2.violated:
@@ -68,17 +79,18 @@ def run(prop, tier, seed):
         res2 = common.run_tlc("TRA", "TRA.cfg", d, timeout=3000, files=files, workers=1)
         if res2.error or res2.rc != 0:
             raise common.ToolError("AnteAuth trace validation did not reach the end: %s\n%s" % (res2.error, res2.out[-3000:]))
-        out.cov["traces_validated_against_impl"] = len(lines)
+        out.cov["traces_validated_against_impl"] += len(lines)
         acc = sum(1 for x in lines if x["obs"]["accepted"])
-        out.notes["real_accepted"] = acc
-        out.notes["real_rejected"] = len(lines) - acc
-        out.notes["rejection_codes"] = {}
+        out.notes["real_accepted"] = out.notes.get("real_accepted", 0) + acc
+        out.notes["real_rejected"] = out.notes.get("real_rejected", 0) + len(lines) - acc
+        out.notes.setdefault("rejection_codes", {})
         for x in lines:
             if not x["obs"]["accepted"]:
                 k = str(x["obs"]["code"])
                 out.notes["rejection_codes"][k] = out.notes["rejection_codes"].get(k, 0) + 1
-        out.sample(next(x for x in lines if x["obs"]["accepted"]))
-        out.sample(next(x for x in lines if not x["obs"]["accepted"] and x["case"]["who"] == "other"))
+        if si == 0:
+            out.sample(next(x for x in lines if x["obs"]["accepted"]))
+            out.sample(next(x for x in lines if not x["obs"]["accepted"] and x["case"]["who"] == "other"))
         seen = set()
         spurious = 0
         for dv in common.parse_div(res2.out):
@@ -86,7 +98,7 @@ def run(prop, tier, seed):
             div, bad = dv["div"], dv["bad"]
             for b in sorted(bad):
                 k = e["case"]
-                key = (b, k["ktype"], k["who"], k["pksrc"], k["mut"], k["feeD"] < 0, k["rp"], k["fx"])
+                key = (b, k["ktype"], k["who"], k["pksrc"], k["mut"], k["feeD"] < 0, k["rp"], k["fx"], k["msg"] if si else "")
                 if key in seen:
                     continue
                 seen.add(key)
@@ -100,8 +112,7 @@ def run(prop, tier, seed):
                 # accepted although the transcription rejects, yet every C03 predicate holds: cannot happen
                 # (Authorised/fee/replay predicates cover it), reported as nonconformance
                 spurious += 1
-        out.notes["nonconformance_real_rejects_what_the_transcription_accepts"] = spurious
-    return out
+        out.notes["nonconformance_real_rejects_what_the_transcription_accepts"] = out.notes.get("nonconformance_real_rejects_what_the_transcription_accepts", 0) + spurious
 
 
 def replay(prop, path):
